@@ -26,6 +26,16 @@ Theorem C03_no_unlisted_inputs :
 Proof. exact build_public_inputs_listed. Qed.
 Print Assumptions C03_no_unlisted_inputs.
 
+(* With drop_unused_inputs the test is on the argument Vars themselves (a missing argument whose generated name equals a listed
+   name is still missing): every argument the outputs use is one of the listed Vars, else KeyError. *)
+Theorem C03_drop_used_arguments_are_listed :
+  forall p r m inputs outputs, build_public p r = inl m -> r_drop r = true ->
+  all_vars (r_inputs r) = Some inputs -> all_vars (r_outputs r) = Some outputs ->
+  exists un b1, build_main (S (List.length (graphs p))) (with_main p None outputs) un 0 = inl b1 /\
+                forall v, In v (b_args b1) -> In v (map snd inputs).
+Proof. exact build_public_drop_used_listed. Qed.
+Print Assumptions C03_drop_used_arguments_are_listed.
+
 (* Inputs or outputs that are not Vars raise TypeError; inputs that are not arguments raise TypeError; no outputs: ValueError. *)
 Theorem C03_bad_kinds_typeerror :
   forall p r, all_vars (r_inputs r) = None \/ all_vars (r_outputs r) = None -> build_public p r = inr EType.
